@@ -30,8 +30,12 @@ func runC16(c *Ctx) {
 	const pkg = "announce"
 
 	// ---- K1: lock pairing on all paths ---------------------------------------
-	c.LockPairing("C16.K1-lock-pairing", pkg, nil)
+	locks := c.LockPairing("C16.K1-lock-pairing", pkg, nil)
 	c.Floor("C16.K1-lock-pairing", 4)
+	// K1b: nothing waits while the receiver's mutex is held (the watcher and
+	// every Direct/UncacheCid caller need it to make progress)
+	c.NoBlockingWhileHolding("C16.K1b-no-wait-under-mutex", pkg, locks, []string{"announceMutex"})
+	c.Floor("C16.K1b-no-wait-under-mutex", 1)
 
 	closeFn := c.Func(pkg, "Receiver.Close")
 	if closeFn == nil {
@@ -86,7 +90,8 @@ func runC16(c *Ctx) {
 	// ---- K4: cancelWatch() before <-watchDone -----------------------------------
 	var cancelCall, waitRecv ssa.Instruction
 	instrs(closeFn.SSA, func(in ssa.Instruction) {
-		if ci, ok := in.(ssa.CallInstruction); ok {
+		// a deferred cancel runs only after the wait: it does not count
+		if ci, ok := in.(*ssa.Call); ok {
 			if _, ok := Match(Op("dyncall", "", Field("cancelWatch", Any())), c.CallX(ci)); ok {
 				cancelCall = in
 			}
@@ -243,8 +248,10 @@ func closeOnce(c *Ctx, rule, key string, cs CallSite, pkg string) {
 				if _, ok := Match(Call("sync.Mutex).Lock"), x); ok && lock == nil {
 					lock = in
 				}
-				if _, ok := Match(Call("sync.Mutex).Unlock"), x); ok && Precedes(in, set) {
-					firstUnlock = in
+				if _, isDefer := in.(*ssa.Defer); !isDefer {
+					if _, ok := Match(Call("sync.Mutex).Unlock"), x); ok && Precedes(in, set) {
+						firstUnlock = in
+					}
 				}
 			}
 		})
